@@ -8,7 +8,7 @@ LEVEL = 'exploration'
 RULE = ('complete enumeration of qubit count x rank vector (all admissible vectors over {1,2,max}) x EVERY non-empty subset of '
         'measured sites; per point the environment answers (uniform variates) are enumerated: for every one of the 2^k outcome '
         'paths a row just inside each conditional threshold (P0 -/+ 1e-9) and a row at the interval midpoints, injected by '
-        'patching numpy.random.rand; additional runs with 1 sample and with multiplicities 1,2,3. Oracle: dense inverse-CDF '
+        'patching numpy.random.rand; additional runs with 1 sample and with multiplicities 1,2,3; a strongly polarised product state per subset (rare prefixes, probability ~1e-4^k); after the first round the SAME state object is changed in place (bit flip) and sampled again. Oracle: dense inverse-CDF '
         'sampler on |psi|^2 marginalised over the unmeasured sites. Non-trivial: every case.')
 ASSUMPTIONS = ['state normalised and right-orthonormal (D4)', 'measured sites given in increasing order', 'outcome paths whose conditional probability is within 2e-9 of 0 or 1 cannot be realised by a variate and are skipped (counted)',
                'the statement about large sample counts is a consequence (law of large numbers applied to the exactly checked inverse-CDF map), not enumerated']
@@ -36,6 +36,9 @@ def cases(tier):
             for k in range(1, n + 1):
                 for S in itertools.combinations(range(n), k):
                     yield {'n': n, 'r': rk, 'S': list(S)}
+                    if max(rk) == 1:
+                        # strongly polarised product state: outcome prefixes with probability ~1e-4^k (rare prefixes)
+                        yield {'n': n, 'r': rk, 'S': list(S), 'pol': True}
 
 
 def run_case(case, seed):
@@ -44,14 +47,26 @@ def run_case(case, seed):
     rng = rng_for({'n': case['n'], 'r': case['r']}, seed)
     n, rk, S = case['n'], case['r'], case['S']
     k = len(S)
-    st = tt_from(rand_cores(rng, [2] * n, [1] * n, rk, True))
-    st.ortho_right()
-    st = (1.0 / st.norm()) * st
+    if case.get('pol'):
+        cores = []
+        for i in range(n):
+            c = np.zeros((1, 2, 1, 1), dtype=complex)
+            c[0, 0, 0, 0] = np.sqrt(1 - 1e-4); c[0, 1, 0, 0] = 1e-2 * np.exp(1j * (0.3 + i))
+            cores.append(c)
+        st = tt_from(cores)
+    else:
+        st = tt_from(rand_cores(rng, [2] * n, [1] * n, rk, True))
+        st.ortho_right()
+        st = (1.0 / st.norm()) * st
+    r.nontrivial = True
+    return _run_state(r, qc, st, n, S, k, second_round=True)
+
+
+def _run_state(r, qc, st, n, S, k, second_round):
     s0 = snap(st)
     psi = vec(st).reshape([2] * n)
     p = np.abs(psi) ** 2
     marg = p.sum(axis=tuple(i for i in range(n) if i not in S)).reshape([2] * k)
-    r.nontrivial = True
 
     def p0(prefix):
         sub = marg[tuple(prefix)]
@@ -124,4 +139,12 @@ def run_case(case, seed):
         mult += [rows[j + 1]] * ((j // 2) % 3 + 1)
     run(mult, 'multiplicities')
     r.true('sampling:state-unchanged', unchanged(st, s0), 'input state modified')
+    if second_round:
+        # the same TT object evolves in place (bit flip on the first measured site: keeps norm and right-orthonormality of
+        # the cores it does not touch unless it is core 0, which carries the norm) and is sampled again: nothing may be
+        # remembered from the first call
+        j = S[0]
+        if j == 0 or True:
+            st.cores[j] = np.ascontiguousarray(st.cores[j][:, ::-1, :, :])
+        _run_state(r, qc, st, n, S, k, second_round=False)
     return r
